@@ -1,4 +1,4 @@
-\* C18 quick: 1 call + 1 subscription through every end path (accepted, refused, malformed id, unsubscribe, drop, server close, lag)
+\* C18 thorough (MaxPeer 5; MaxPeer 6 is 74 M states and 18 min - too close to any time limit on a loaded machine): 1 call + 1 subscription through every end path (accepted, refused, malformed id, unsubscribe, drop, server close, lag)
 CONSTANTS
   Ops <- Ops2
   Kind <- K_1call1sub
@@ -8,7 +8,7 @@ CONSTANTS
   SubIds = {1}
   Dev = {}
   PeerMenu = {"resp", "notif", "close"}
-  MaxPeer = 6
+  MaxPeer = 5
   MaxPush = 2
   Faults = {}
   MaxFaults = 1
